@@ -724,6 +724,24 @@ theorem getLast?_cons_some {α} (x : α) (b : List α) (y : α) (h : b.getLast? 
   have := getLast?_append_some [x] b y h
   simpa using this
 
+theorem bomShift_bom (b : IniSpec.Bom) (hb : b ≠ .none) (L : Bytes) : bomShift (b.bytes ++ L) = b.bytes.length := by
+  cases b with
+  | none => exact absurd rfl hb
+  | utf8 => simp [IniSpec.Bom.bytes, bomShift, bufAt]
+  | utf16be => simp [IniSpec.Bom.bytes, bomShift, bufAt]
+  | utf16le => simp [IniSpec.Bom.bytes, bomShift, bufAt]
+  | utf32be => simp [IniSpec.Bom.bytes, bomShift, bufAt]
+
+theorem bomShift_none (L : Bytes) (h : IniSpec.startsWithBom L = false) : bomShift L = 0 := by
+  unfold IniSpec.startsWithBom at h
+  unfold bomShift bufAt
+  match L with
+  | [] => simp
+  | [a] => simp
+  | [a, b] => simp [List.isPrefixOf] at h ⊢; grind
+  | [a, b, c] => simp [List.isPrefixOf] at h ⊢; grind
+  | a :: b :: c :: d :: r => simp [List.isPrefixOf] at h ⊢; grind
+
 theorem lineOf_eq (pfx L : Bytes) (hsh : bomShift (pfx ++ L) = pfx.length) (h0 : ∀ x ∈ L, x ≠ 0)
     (hlen : L.length ≤ maxLine) : lineOf (pfx ++ L) = chomp L := by
   unfold lineOf
@@ -868,38 +886,76 @@ theorem stepLine_entry (st : PState) (e : IniSpec.Entry) (tail : Bytes) (hwf : e
   · rw [chomp_of_trimmed_append e.key e.pre ⟨k0, kb, hk0, hkb, hsk0, hskb⟩ (allBlank_allSpace hpre)]
     exact clip_of_le _ hlenK
 
-theorem no0_append {a b : Bytes} (ha : ∀ x ∈ a, x ≠ 0) (hb : ∀ x ∈ b, x ≠ 0) : ∀ x ∈ a ++ b, x ≠ 0 := by
+theorem avoid_append {c : UInt8} {a b : Bytes} (ha : ∀ x ∈ a, x ≠ c) (hb : ∀ x ∈ b, x ≠ c) : ∀ x ∈ a ++ b, x ≠ c := by
   intro x hx; simp only [List.mem_append] at hx
   rcases hx with hx | hx
   · exact ha x hx
   · exact hb x hx
 
-theorem comment_no0 (c : IniSpec.Comment) (h : c.wf = true) : ∀ x ∈ c.render, x ≠ 0 := by
+theorem no0_append {a b : Bytes} (ha : ∀ x ∈ a, x ≠ 0) (hb : ∀ x ∈ b, x ≠ 0) : ∀ x ∈ a ++ b, x ≠ 0 :=
+  avoid_append ha hb
+
+theorem plain_avoid {s : Bytes} {c : UInt8} (hc : c = 0 ∨ c = 10) (h : IniSpec.plain s = true) : ∀ x ∈ s, x ≠ c := by
+  intro x hx
+  have := (List.all_eq_true.mp h) x hx
+  simp only [Bool.and_eq_true, bne_iff_ne, ne_eq] at this
+  rcases hc with hc | hc <;> subst hc
+  · exact this.1
+  · exact this.2
+
+theorem allBlank_avoid {s : Bytes} {c : UInt8} (hc : c = 0 ∨ c = 10) (h : IniSpec.allBlank s = true) : ∀ x ∈ s, x ≠ c := by
+  intro x hx
+  have := (List.all_eq_true.mp h) x hx
+  simp only [IniSpec.isBlank, Bool.and_eq_true, bne_iff_ne, ne_eq] at this
+  rcases hc with hc | hc <;> subst hc
+  · intro e; subst e; have := this.1; revert this; decide
+  · exact this.2
+
+theorem comment_avoid {c0 : UInt8} (hc : c0 = 0 ∨ c0 = 10) (c : IniSpec.Comment) (h : c.wf = true) :
+    ∀ x ∈ c.render, x ≠ c0 := by
   simp only [IniSpec.Comment.wf, Bool.and_eq_true, Bool.or_eq_true, beq_iff_eq] at h
   intro x hx
   simp only [IniSpec.Comment.render, List.mem_cons] at hx
   rcases hx with hx | hx
-  · subst hx; rcases h.1 with h1 | h1 <;> rw [h1] <;> decide
-  · exact plain_no0 h.2 x hx
+  · subst hx; rcases h.1 with h1 | h1 <;> rw [h1] <;> rcases hc with hc | hc <;> subst hc <;> decide
+  · exact plain_avoid hc h.2 x hx
 
-theorem body_no0 (b : IniSpec.Body) (hwf : b.wf = true) : ∀ x ∈ b.render, x ≠ 0 := by
+theorem single_avoid {c0 b : UInt8} (h : b ≠ c0) : ∀ x ∈ [b], x ≠ c0 := by
+  intro x hx; simp only [List.mem_singleton] at hx; subst hx; exact h
+
+theorem body_avoid {c0 : UInt8} (hc : c0 = 0 ∨ c0 = 10) (b : IniSpec.Body) (hwf : b.wf = true) :
+    ∀ x ∈ b.render, x ≠ c0 := by
   cases b with
-  | blank ws => exact (allBlank_allSpace hwf).no0
+  | blank ws => exact allBlank_avoid hc hwf
   | comment lead c =>
     simp only [IniSpec.Body.wf, Bool.and_eq_true] at hwf
-    exact no0_append (allBlank_allSpace hwf.1).no0 (comment_no0 c hwf.2)
+    exact avoid_append (allBlank_avoid hc hwf.1) (comment_avoid hc c hwf.2)
   | entry e =>
     simp only [IniSpec.Body.wf] at hwf
     simp only [IniSpec.Entry.wf, Bool.and_eq_true] at hwf
     obtain ⟨⟨⟨⟨⟨⟨⟨⟨⟨⟨⟨⟨hlead, hpre⟩, hpost⟩, htrail⟩, hkplain⟩, hktrim⟩, hk61⟩, hk35⟩, hk59⟩, hk91⟩, hvplain⟩, hq⟩, hcm⟩ := hwf
-    have hqb : ∀ x ∈ e.quote.bytes, x ≠ 0 := by cases e.quote <;> simp [IniSpec.Quote.bytes]
+    have hqb : ∀ x ∈ e.quote.bytes, x ≠ c0 := by
+      cases e.quote <;> simp only [IniSpec.Quote.bytes] <;> rcases hc with hc | hc <;> subst hc <;> decide
+    have h61 : ∀ x ∈ [(61 : UInt8)], x ≠ c0 := single_avoid (by rcases hc with hc | hc <;> subst hc <;> decide)
     simp only [IniSpec.Body.render, IniSpec.Entry.render]
-    refine no0_append (no0_append (no0_append (no0_append (no0_append (no0_append (no0_append (no0_append (no0_append
-      (allBlank_allSpace hlead).no0 (plain_no0 hkplain)) (allBlank_allSpace hpre).no0) (by simp))
-      (allBlank_allSpace hpost).no0) hqb) (plain_no0 hvplain)) hqb) (allBlank_allSpace htrail).no0) ?_
-    cases hc : e.comment with
+    refine avoid_append (avoid_append (avoid_append (avoid_append (avoid_append (avoid_append (avoid_append
+      (avoid_append (avoid_append
+      (allBlank_avoid hc hlead) (plain_avoid hc hkplain)) (allBlank_avoid hc hpre)) h61)
+      (allBlank_avoid hc hpost)) hqb) (plain_avoid hc hvplain)) hqb) (allBlank_avoid hc htrail)) ?_
+    cases hcc : e.comment with
     | none => simp
-    | some c => rw [hc] at hcm; exact comment_no0 c hcm
+    | some c => rw [hcc] at hcm; exact comment_avoid hc c hcm
+
+theorem body_no0 (b : IniSpec.Body) (hwf : b.wf = true) : ∀ x ∈ b.render, x ≠ 0 := body_avoid (Or.inl rfl) b hwf
+
+theorem header_body_avoid {c0 : UInt8} (hc : c0 = 0 ∨ c0 = 10) (h : IniSpec.Header) (hwf : h.wf = true) :
+    ∀ x ∈ h.lead ++ [91] ++ h.pre ++ h.name ++ h.post ++ [93] ++ h.trail, x ≠ c0 := by
+  simp only [IniSpec.Header.wf, Bool.and_eq_true] at hwf
+  obtain ⟨⟨⟨⟨⟨⟨hlead, hpre⟩, hpost⟩, htrail⟩, hnplain⟩, hntrim⟩, hn93⟩ := hwf
+  exact avoid_append (avoid_append (avoid_append (avoid_append (avoid_append (avoid_append
+      (allBlank_avoid hc hlead) (single_avoid (by rcases hc with hc | hc <;> subst hc <;> decide)))
+      (allBlank_avoid hc hpre)) (plain_avoid hc hnplain)) (allBlank_avoid hc hpost))
+      (single_avoid (by rcases hc with hc | hc <;> subst hc <;> decide))) (allBlank_avoid hc htrail)
 
 /-- one line of the document, as one `fgets` chunk (`pfx` = the BOM on the first line) -/
 theorem step_line (st : PState) (pfx : Bytes) (l : IniSpec.Line) (hwf : l.body.wf = true)
@@ -951,13 +1007,12 @@ theorem step_line (st : PState) (pfx : Bytes) (l : IniSpec.Line) (hwf : l.body.w
 theorem step_header (st : PState) (pfx : Bytes) (h : IniSpec.Header) (hwf : h.wf = true)
     (hsh : bomShift (pfx ++ h.render) = pfx.length) (hlen : h.render.length ≤ maxLine) :
     step true st (pfx ++ h.render) = { sections := pushSection st, cur := some { name := h.name, keys := [] } } := by
+  have hwf0 := hwf
   simp only [IniSpec.Header.wf, Bool.and_eq_true] at hwf
   obtain ⟨⟨⟨⟨⟨⟨hlead, hpre⟩, hpost⟩, htrail⟩, hnplain⟩, hntrim⟩, hn93⟩ := hwf
   have h0 : ∀ x ∈ h.render, x ≠ 0 := by
     simp only [IniSpec.Header.render]
-    exact no0_append (no0_append (no0_append (no0_append (no0_append (no0_append (no0_append
-      (allBlank_allSpace hlead).no0 (by simp)) (allBlank_allSpace hpre).no0) (plain_no0 hnplain))
-      (allBlank_allSpace hpost).no0) (by simp)) (allBlank_allSpace htrail).no0) (eol_allSpace h.eol).no0
+    exact no0_append (header_body_avoid (Or.inl rfl) h hwf0) (eol_allSpace h.eol).no0
   unfold step
   rw [lineOf_eq pfx h.render hsh h0 hlen]
   obtain ⟨a, b, ha, hb, hsa, hsb⟩ := trimmed_Trimmed hntrim
@@ -976,5 +1031,382 @@ theorem step_header (st : PState) (pfx : Bytes) (h : IniSpec.Header) (hwf : h.wf
     (not_contains hn93)
   simp only [IniSpec.Header.render, List.length_append] at hlen
   omega
+
+/-! ## `fgets` on a file that consists of lines -/
+
+theorem splitAux_line (L : Nat) (x rest cur : Bytes) (n : Nat) (hx : ∀ b ∈ x, b ≠ 10)
+    (hlen : n + x.length + 1 ≤ L) :
+    splitAux L (x ++ 10 :: rest) cur n = (cur.reverse ++ x ++ [10]) :: splitAux L rest [] 0 := by
+  induction x generalizing cur n with
+  | nil => simp [splitAux]
+  | cons b x ih =>
+    have hb : b ≠ 10 := hx b (by simp)
+    have hb' : (b == 10) = false := by simp [hb]
+    simp only [List.length_cons] at hlen
+    have hn : ¬ (n + 1 ≥ L) := by omega
+    simp only [List.cons_append, splitAux, hb', hn, decide_false, Bool.or_self, Bool.false_eq_true, if_false]
+    rw [ih (b :: cur) (n + 1) (fun y hy => hx y (by simp [hy])) (by omega)]
+    simp
+
+theorem splitAux_last (L : Nat) (x cur : Bytes) (n : Nat) (hx : ∀ b ∈ x, b ≠ 10) (hlen : n + x.length ≤ L) :
+    splitAux L x cur n = if (cur.reverse ++ x).isEmpty then [] else [cur.reverse ++ x] := by
+  induction x generalizing cur n with
+  | nil => cases cur <;> simp [splitAux]
+  | cons b x ih =>
+    have hb : b ≠ 10 := hx b (by simp)
+    have hb' : (b == 10) = false := by simp [hb]
+    simp only [List.length_cons] at hlen
+    by_cases hn : n + 1 ≥ L
+    · have hx0 : x = [] := by
+        cases x with
+        | nil => rfl
+        | cons _ _ => simp only [List.length_cons] at hlen; omega
+      subst hx0
+      simp [splitAux, hn]
+    · simp only [splitAux, hb', hn, decide_false, Bool.or_self, Bool.false_eq_true, if_false]
+      rw [ih (b :: cur) (n + 1) (fun y hy => hx y (by simp [hy])) (by omega)]
+      simp
+
+/-- ends in a newline and has no other -/
+def IsLine (l : Bytes) : Prop := ∃ x, l = x ++ [10] ∧ ∀ b ∈ x, b ≠ 10
+
+/-- physical lines: each at most `L` bytes, all but possibly the last newline-terminated -/
+def LinesOk (L : Nat) : List Bytes → Prop
+  | [] => True
+  | [l] => l.length ≤ L ∧ (IsLine l ∨ ∀ b ∈ l, b ≠ 10)
+  | l :: l2 :: rest => l.length ≤ L ∧ IsLine l ∧ LinesOk L (l2 :: rest)
+
+theorem split_lines (L : Nat) (ls : List Bytes) (h : LinesOk L ls) :
+    splitAux L ls.flatten [] 0 = ls.filter (fun c => !c.isEmpty) := by
+  induction ls with
+  | nil => simp [splitAux]
+  | cons l rest ih =>
+    cases rest with
+    | nil =>
+      obtain ⟨hlen, hl | hl⟩ := h
+      · obtain ⟨x, hx, hx10⟩ := hl
+        subst hx
+        have := splitAux_line L x [] [] 0 hx10 (by simp at hlen; omega)
+        simp only [List.flatten_cons, List.flatten_nil, List.append_nil]
+        have e : x ++ [10] = x ++ 10 :: [] := rfl
+        rw [e, this]
+        simp [splitAux]
+      · have := splitAux_last L l [] 0 hl (by omega)
+        simp only [List.flatten_cons, List.flatten_nil, List.append_nil, this]
+        cases l <;> simp
+    | cons l2 rest' =>
+      obtain ⟨hlen, ⟨x, hx, hx10⟩, hrest⟩ := h
+      subst hx
+      have := splitAux_line L x (l2 :: rest').flatten [] 0 hx10 (by simp at hlen; omega)
+      have e : ((x ++ [10]) :: l2 :: rest').flatten = x ++ 10 :: (l2 :: rest').flatten := by simp
+      rw [e, this, ih hrest]
+      simp
+
+theorem lineOf_nil : lineOf [] = [] := by decide
+
+theorem step_nil (st : PState) : step true st [] = st := by
+  unfold step
+  rw [lineOf_nil]
+  exact stepLine_none st [] (by simp [bufAt]) kvCascade_nil
+
+theorem foldl_filter_step (ls : List Bytes) (st : PState) :
+    (ls.filter (fun c => !c.isEmpty)).foldl (step true) st = ls.foldl (step true) st := by
+  induction ls generalizing st with
+  | nil => rfl
+  | cons l rest ih =>
+    cases l with
+    | nil => simp only [List.filter_cons, List.isEmpty_nil, Bool.not_true, Bool.false_eq_true, if_false,
+        List.foldl_cons, step_nil]; exact ih st
+    | cons b l' => simp only [List.filter_cons, List.isEmpty_cons, Bool.not_false, if_true, List.foldl_cons]; exact ih _
+
+/-! ## the physical lines of a document -/
+
+inductive RLine where
+  | body (l : IniSpec.Line)
+  | header (h : IniSpec.Header)
+
+/-- the bytes before the line end -/
+def RLine.pre : RLine → Bytes
+  | .body l => l.body.render
+  | .header h => h.lead ++ [91] ++ h.pre ++ h.name ++ h.post ++ [93] ++ h.trail
+
+def RLine.eol : RLine → IniSpec.Eol
+  | .body l => l.eol
+  | .header h => h.eol
+
+def RLine.render : RLine → Bytes
+  | .body l => l.render
+  | .header h => h.render
+
+def RLine.wf : RLine → Bool
+  | .body l => l.body.wf
+  | .header h => h.wf
+
+theorem RLine.render_eq (r : RLine) : r.render = r.pre ++ r.eol.bytes := by
+  cases r <;> rfl
+
+def secRLines (s : IniSpec.Sec) : List RLine := .header s.header :: s.body.map .body
+
+def docRLines (d : IniSpec.Doc) : List RLine := d.preamble.map .body ++ d.secs.flatMap secRLines
+
+theorem doc_lines_eq (d : IniSpec.Doc) : d.lines = (docRLines d).map RLine.render := by
+  unfold IniSpec.Doc.lines docRLines
+  rw [List.map_append, List.map_map, List.map_flatMap]
+  have h1 : (RLine.render ∘ RLine.body) = IniSpec.Line.render := by funext l; rfl
+  have h2 : (fun s => (secRLines s).map RLine.render) = IniSpec.Sec.lines := by
+    funext s; simp [secRLines, IniSpec.Sec.lines, RLine.render, Function.comp_def]
+  rw [h1, h2]
+
+theorem doc_eols_eq (d : IniSpec.Doc) : d.eols = (docRLines d).map RLine.eol := by
+  unfold IniSpec.Doc.eols docRLines
+  rw [List.map_append, List.map_map, List.map_flatMap]
+  have h1 : (RLine.eol ∘ RLine.body) = (fun l : IniSpec.Line => l.eol) := by funext l; rfl
+  have h2 : (fun s => (secRLines s).map RLine.eol) = (fun s : IniSpec.Sec => s.header.eol :: s.body.map (·.eol)) := by
+    funext s; simp [secRLines, RLine.eol, Function.comp_def]
+  rw [h1, h2]
+
+theorem rline_pre_avoid {c0 : UInt8} (hc : c0 = 0 ∨ c0 = 10) (r : RLine) (hwf : r.wf = true) : ∀ x ∈ r.pre, x ≠ c0 := by
+  cases r with
+  | body l => exact body_avoid hc l.body hwf
+  | header h => exact header_body_avoid hc h hwf
+
+theorem rline_isLine (p : Bytes) (hp : ∀ x ∈ p, x ≠ 10) (r : RLine) (hwf : r.wf = true) (he : r.eol ≠ .eof) :
+    IsLine (p ++ r.render) := by
+  rw [RLine.render_eq]
+  have h10 := rline_pre_avoid (Or.inr rfl) r hwf
+  cases hr : r.eol with
+  | lf => exact ⟨p ++ r.pre, by simp [IniSpec.Eol.bytes], avoid_append hp h10⟩
+  | crlf =>
+    refine ⟨p ++ r.pre ++ [13], by simp [IniSpec.Eol.bytes], avoid_append (avoid_append hp h10) (single_avoid (by decide))⟩
+  | eof => exact absurd hr he
+
+theorem rline_no10 (p : Bytes) (hp : ∀ x ∈ p, x ≠ 10) (r : RLine) (hwf : r.wf = true) (he : r.eol = .eof) :
+    ∀ x ∈ p ++ r.render, x ≠ 10 := by
+  rw [RLine.render_eq, he]
+  simpa [IniSpec.Eol.bytes] using avoid_append hp (rline_pre_avoid (Or.inr rfl) r hwf)
+
+theorem linesOk_map (L : Nat) (rl : List RLine) (hwf : ∀ r ∈ rl, r.wf = true)
+    (he : IniSpec.eolsOk (rl.map RLine.eol) = true) (hlen : ∀ r ∈ rl, r.render.length ≤ L) :
+    LinesOk L (rl.map RLine.render) := by
+  induction rl with
+  | nil => trivial
+  | cons r rest ih =>
+    have hnil : ∀ x ∈ ([] : Bytes), x ≠ 10 := by intro x hx; simp at hx
+    cases rest with
+    | nil =>
+      refine ⟨hlen r (by simp), ?_⟩
+      by_cases hr : r.eol = .eof
+      · exact Or.inr (by simpa using rline_no10 [] hnil r (hwf r (by simp)) hr)
+      · exact Or.inl (by simpa using rline_isLine [] hnil r (hwf r (by simp)) hr)
+    | cons r2 rest' =>
+      simp only [List.map_cons, IniSpec.eolsOk, Bool.and_eq_true, bne_iff_ne, ne_eq] at he
+      refine ⟨hlen r (by simp), by simpa using rline_isLine [] hnil r (hwf r (by simp)) he.1, ?_⟩
+      exact ih (fun x hx => hwf x (by simp [hx])) (by simpa using he.2) (fun x hx => hlen x (by simp [hx]))
+
+/-- the chunks of a document: the BOM (if any) is glued to the first line -/
+theorem linesOk_chunks (L : Nat) (p : Bytes) (hp : ∀ x ∈ p, x ≠ 10) (r : RLine) (rest : List RLine)
+    (hwf : ∀ x ∈ r :: rest, x.wf = true)
+    (he : IniSpec.eolsOk ((r :: rest).map RLine.eol) = true) (hlen1 : p.length + r.render.length ≤ L)
+    (hlen : ∀ x ∈ rest, x.render.length ≤ L) :
+    LinesOk L ((p ++ r.render) :: rest.map RLine.render) := by
+  cases rest with
+  | nil =>
+    refine ⟨by simp; omega, ?_⟩
+    by_cases hr : r.eol = .eof
+    · exact Or.inr (rline_no10 p hp r (hwf r (by simp)) hr)
+    · exact Or.inl (rline_isLine p hp r (hwf r (by simp)) hr)
+  | cons r2 rest' =>
+    simp only [List.map_cons, IniSpec.eolsOk, Bool.and_eq_true, bne_iff_ne, ne_eq] at he
+    refine ⟨by simp; omega, rline_isLine p hp r (hwf r (by simp)) he.1, ?_⟩
+    exact linesOk_map L (r2 :: rest') (fun x hx => hwf x (by simp [hx])) (by simpa using he.2) hlen
+
+/-- the effect of a physical line on the loop state -/
+def rlineEffect (st : PState) : RLine → PState
+  | .body l => bodyEffect st l.body
+  | .header h => { sections := pushSection st, cur := some { name := h.name, keys := [] } }
+
+theorem step_rline (st : PState) (pfx : Bytes) (r : RLine) (hwf : r.wf = true)
+    (hsh : bomShift (pfx ++ r.render) = pfx.length) (hlen : r.render.length ≤ maxLine) :
+    step true st (pfx ++ r.render) = rlineEffect st r := by
+  cases r with
+  | body l => exact step_line st pfx l hwf hsh hlen
+  | header h => exact step_header st pfx h hwf hsh hlen
+
+theorem foldl_rlines (rl : List RLine) (st : PState) (hwf : ∀ r ∈ rl, r.wf = true)
+    (hok : ∀ r ∈ rl, r.render.length ≤ maxLine ∧ IniSpec.startsWithBom r.render = false) :
+    (rl.map RLine.render).foldl (step true) st = rl.foldl rlineEffect st := by
+  induction rl generalizing st with
+  | nil => rfl
+  | cons r rest ih =>
+    simp only [List.map_cons, List.foldl_cons]
+    have h1 := hok r (by simp)
+    have : step true st r.render = rlineEffect st r := by
+      have := step_rline st [] r (hwf r (by simp)) (by simpa using bomShift_none r.render h1.2) h1.1
+      simpa using this
+    rw [this]
+    exact ih _ (fun x hx => hwf x (by simp [hx])) (fun x hx => hok x (by simp [hx]))
+
+/-! ## the whole file -/
+
+theorem maxLine_eq : maxLine = IniSpec.maxLine := by decide
+
+theorem splitLines_eq (x : Bytes) : splitLines x = splitAux maxLine x [] 0 := rfl
+
+theorem wf_rlines (σ : IniSpec.Style) (d : IniSpec.Doc) (h : IniSpec.WF σ d = true) :
+    ∀ r ∈ docRLines d, r.wf = true := by
+  simp only [IniSpec.WF, Bool.and_eq_true, List.all_eq_true] at h
+  obtain ⟨⟨⟨⟨hpre, hsecs⟩, _⟩, _⟩, _⟩ := h
+  intro r hr
+  simp only [docRLines, List.mem_append, List.mem_map, List.mem_flatMap] at hr
+  rcases hr with ⟨l, hl, rfl⟩ | ⟨s, hs, hr⟩
+  · exact hpre l hl
+  · have := hsecs s hs
+    simp only [secRLines, List.mem_cons, List.mem_map] at hr
+    rcases hr with rfl | ⟨l, hl, rfl⟩
+    · exact this.1
+    · exact this.2 l hl
+
+theorem bom_avoid10 (b : IniSpec.Bom) : ∀ x ∈ b.bytes, x ≠ 10 := by
+  cases b <;> simp [IniSpec.Bom.bytes]
+
+theorem bom_only (b : IniSpec.Bom) (st : PState) : (splitLines b.bytes).foldl (step true) st = st := by
+  by_cases hb : b = .none
+  · subst hb; rfl
+  · have hok : LinesOk maxLine [b.bytes] := ⟨by cases b <;> decide, Or.inr (bom_avoid10 b)⟩
+    have hs := split_lines maxLine [b.bytes] hok
+    simp only [List.flatten_cons, List.flatten_nil, List.append_nil] at hs
+    rw [splitLines_eq, hs, foldl_filter_step]
+    simp only [List.foldl_cons, List.foldl_nil]
+    have hl : lineOf b.bytes = [] := by
+      have h := lineOf_eq b.bytes [] (by simpa using bomShift_bom b hb []) (by intro x hx; simp at hx) (by simp)
+      rw [List.append_nil] at h
+      rw [h]; exact chomp_allSpace [] (by intro x hx; simp at hx)
+    unfold step
+    rw [hl]
+    exact stepLine_none st [] (by simp [bufAt]) kvCascade_nil
+
+/-- reading a rendered document = applying the effect of each of its lines -/
+theorem foldl_render (σ : IniSpec.Style) (d : IniSpec.Doc) (hwf : IniSpec.WF σ d = true) (st : PState) :
+    (splitLines (IniSpec.render σ d)).foldl (step true) st = (docRLines d).foldl rlineEffect st := by
+  have hrw := wf_rlines σ d hwf
+  simp only [IniSpec.WF, Bool.and_eq_true] at hwf
+  obtain ⟨⟨⟨_, _⟩, heols⟩, hlines⟩ := hwf
+  rw [doc_eols_eq] at heols
+  unfold IniSpec.linesOk at hlines
+  unfold IniSpec.render
+  rw [doc_lines_eq] at hlines ⊢
+  cases hrl : docRLines d with
+  | nil => simpa using bom_only σ.bom st
+  | cons r rest =>
+    rw [hrl] at hrw heols hlines
+    simp only [List.map_cons, Bool.and_eq_true, decide_eq_true_eq, Bool.or_eq_true, bne_iff_ne, ne_eq,
+      Bool.not_eq_true', List.all_eq_true, List.mem_map, forall_exists_index, and_imp,
+      forall_apply_eq_imp_iff₂] at hlines
+    obtain ⟨⟨hlen1, hbom⟩, hrest⟩ := hlines
+    rw [← maxLine_eq] at hlen1 hrest
+    have hok := linesOk_chunks maxLine σ.bom.bytes (bom_avoid10 σ.bom) r rest hrw (by simpa using heols) hlen1
+      (fun x hx => (hrest x hx).1)
+    have hflat : σ.bom.bytes ++ (r.render :: rest.map RLine.render).flatten
+        = ((σ.bom.bytes ++ r.render) :: rest.map RLine.render).flatten := by simp
+    rw [List.map_cons, hflat, splitLines_eq, split_lines maxLine _ hok, foldl_filter_step, List.foldl_cons]
+    have hsh : bomShift (σ.bom.bytes ++ r.render) = σ.bom.bytes.length := by
+      rcases hbom with hb | hb
+      · exact bomShift_bom σ.bom hb r.render
+      · by_cases hn : σ.bom = .none
+        · rw [hn]; simpa [IniSpec.Bom.bytes] using bomShift_none r.render hb
+        · exact bomShift_bom σ.bom hn r.render
+    rw [step_rline st σ.bom.bytes r (hrw r (by simp)) hsh (by omega)]
+    rw [foldl_rlines rest _ (fun x hx => hrw x (by simp [hx])) (fun x hx => hrest x hx)]
+    rfl
+
+/-! ## folding the line effects: sections and keys in C list order -/
+
+def secOf (s : IniSpec.Sec) : Section := ⟨s.header.name, (IniSpec.entriesOf s.body).reverse⟩
+
+theorem foldl_body_none (body : List IniSpec.Line) (S : List Section) :
+    (body.map RLine.body).foldl rlineEffect ⟨S, none⟩ = ⟨S, none⟩ := by
+  induction body with
+  | nil => rfl
+  | cons l rest ih =>
+    simp only [List.map_cons, List.foldl_cons]
+    have : rlineEffect ⟨S, none⟩ (RLine.body l) = ⟨S, none⟩ := by
+      simp only [rlineEffect]
+      cases l.body <;> simp [bodyEffect, addKey]
+    rw [this]; exact ih
+
+theorem foldl_body_some (body : List IniSpec.Line) (S : List Section) (n : Bytes) (ks : List (Bytes × Bytes)) :
+    (body.map RLine.body).foldl rlineEffect ⟨S, some ⟨n, ks⟩⟩
+      = ⟨S, some ⟨n, (IniSpec.entriesOf body).reverse ++ ks⟩⟩ := by
+  induction body generalizing ks with
+  | nil => simp [IniSpec.entriesOf]
+  | cons l rest ih =>
+    simp only [List.map_cons, List.foldl_cons]
+    cases hb : l.body with
+    | blank ws =>
+      have : rlineEffect ⟨S, some ⟨n, ks⟩⟩ (RLine.body l) = ⟨S, some ⟨n, ks⟩⟩ := by simp [rlineEffect, hb, bodyEffect]
+      rw [this, ih]; simp [IniSpec.entriesOf, List.filterMap_cons, hb]
+    | comment lead c =>
+      have : rlineEffect ⟨S, some ⟨n, ks⟩⟩ (RLine.body l) = ⟨S, some ⟨n, ks⟩⟩ := by simp [rlineEffect, hb, bodyEffect]
+      rw [this, ih]; simp [IniSpec.entriesOf, List.filterMap_cons, hb]
+    | entry e =>
+      have : rlineEffect ⟨S, some ⟨n, ks⟩⟩ (RLine.body l) = ⟨S, some ⟨n, (e.key, e.value) :: ks⟩⟩ := by
+        simp [rlineEffect, hb, bodyEffect, addKey]
+      rw [this, ih]; simp [IniSpec.entriesOf, List.filterMap_cons, hb]
+
+/-- a whole section block: push what was current, start the new section, collect its keys -/
+def secStep (st : PState) (s : IniSpec.Sec) : PState := ⟨pushSection st, some (secOf s)⟩
+
+theorem foldl_sec (s : IniSpec.Sec) (st : PState) : (secRLines s).foldl rlineEffect st = secStep st s := by
+  simp only [secRLines, List.foldl_cons, rlineEffect]
+  rw [foldl_body_some]
+  simp [secStep, secOf]
+
+theorem foldl_secs (secs : List IniSpec.Sec) (st : PState) :
+    (secs.flatMap secRLines).foldl rlineEffect st = secs.foldl secStep st := by
+  induction secs generalizing st with
+  | nil => rfl
+  | cons s rest ih => simp only [List.flatMap_cons, List.foldl_append, List.foldl_cons, foldl_sec, ih]
+
+theorem foldl_doc (d : IniSpec.Doc) :
+    (docRLines d).foldl rlineEffect ⟨[], none⟩ = d.secs.foldl secStep ⟨[], none⟩ := by
+  simp only [docRLines, List.foldl_append, foldl_body_none, foldl_secs]
+
+def hasKeys (x : Section) : Bool := !x.keys.isEmpty
+
+theorem pushSection_secStep (st : PState) (s : IniSpec.Sec) :
+    pushSection (secStep st s) = [secOf s].filter hasKeys ++ pushSection st := by
+  have : pushSection (secStep st s)
+      = if (secOf s).keys.isEmpty then pushSection st else secOf s :: pushSection st := rfl
+  rw [this]
+  by_cases h : (secOf s).keys.isEmpty = true <;> simp [h, hasKeys]
+
+theorem foldl_secStep (secs : List IniSpec.Sec) (last : IniSpec.Sec) (st : PState) :
+    (secs ++ [last]).foldl secStep st
+      = ⟨((secs.map secOf).filter hasKeys).reverse ++ pushSection st, some (secOf last)⟩ := by
+  induction secs generalizing st with
+  | nil => simp [secStep]
+  | cons s rest ih =>
+    simp only [List.cons_append, List.foldl_cons, ih, pushSection_secStep, List.map_cons, List.filter_cons]
+    cases hasKeys (secOf s) <;> simp
+
+theorem finish_some (S : List Section) (x : Section) : finish ⟨S, some x⟩ = S ++ [x].filter hasKeys := by
+  simp only [finish]
+  by_cases h : x.keys.isEmpty = true <;> simp [h, hasKeys]
+
+/-- the parsed file of a well-formed document: earlier sections in reverse order, then the last one -/
+theorem parse_render_sections (σ : IniSpec.Style) (d : IniSpec.Doc) (hwf : IniSpec.WF σ d = true)
+    (init : List IniSpec.Sec) (last : IniSpec.Sec) (hs : d.secs = init ++ [last]) :
+    parse (IniSpec.render σ d) = ((init.map secOf).filter hasKeys).reverse ++ [secOf last].filter hasKeys := by
+  have hskip : PV.Generated.Ini.commentSkip = true := by decide
+  unfold parse parseWith
+  rw [hskip, foldl_render σ d hwf, foldl_doc, hs, foldl_secStep, finish_some]
+  simp [pushSection]
+
+theorem parse_render_nosections (σ : IniSpec.Style) (d : IniSpec.Doc) (hwf : IniSpec.WF σ d = true)
+    (hs : d.secs = []) : parse (IniSpec.render σ d) = [] := by
+  have hskip : PV.Generated.Ini.commentSkip = true := by decide
+  unfold parse parseWith
+  rw [hskip, foldl_render σ d hwf, foldl_doc, hs]
+  rfl
 
 end PV.Ini
